@@ -95,9 +95,15 @@ where
             // before we can do anything else.
             if buffered_req.is_some() && server.is_some() {
                 let si = &mut server.as_mut().as_pin_mut().unwrap().0;
-                // Unwrapping is safe as the underlying sink is guaranteed not to error
-                ready!(si.poll_ready_unpin(cx)).unwrap();
-                si.start_send_unpin(buffered_req.take().unwrap()).unwrap();
+                match ready!(si.poll_ready_unpin(cx)) {
+                    Ok(()) => si.start_send_unpin(buffered_req.take().unwrap()).unwrap(),
+                    // The replier's connection has failed: unbind it so that another replier
+                    // can bind. The request stays buffered for the next replier.
+                    Err(e) => {
+                        error!("Replier sink failed, unbinding replier: {e:?}");
+                        *server = None;
+                    }
+                }
             }
 
             // If we've got an error buffered already, we need to write it to the client
@@ -206,7 +212,9 @@ where
                     // Server has finished
                     Poll::Ready(None) => {
                         let si = &mut server.as_mut().as_pin_mut().unwrap().0;
-                        ready!(si.poll_flush_unpin(cx)).unwrap();
+                        // A replier that has gone away may well fail to flush; it is
+                        // unbound either way
+                        let _ = ready!(si.poll_flush_unpin(cx));
                         ready!(sink.as_mut().poll_flush(cx)).unwrap();
                         *server = None;
                         #[cfg(selium_verif)]
@@ -256,7 +264,10 @@ where
 
                     if server.is_some() {
                         let si = &mut server.as_mut().as_pin_mut().unwrap().0;
-                        ready!(si.poll_flush_unpin(cx)).unwrap();
+                        if let Err(e) = ready!(si.poll_flush_unpin(cx)) {
+                            error!("Replier sink failed, unbinding replier: {e:?}");
+                            *server = None;
+                        }
                     }
 
                     // No requestor streams exist, so there is nothing to wait for on that side
@@ -274,7 +285,10 @@ where
 
                 if server.is_some() {
                     let si = &mut server.as_mut().as_pin_mut().unwrap().0;
-                    ready!(si.poll_flush_unpin(cx)).unwrap();
+                    if let Err(e) = ready!(si.poll_flush_unpin(cx)) {
+                        error!("Replier sink failed, unbinding replier: {e:?}");
+                        *server = None;
+                    }
                 }
 
                 return Poll::Pending;
